@@ -22,6 +22,13 @@ pub(crate) struct SchemaWrapper(Schema);
 
 impl Eq for SchemaWrapper {}
 
+#[cfg(typify_verif)]
+impl SchemaWrapper {
+    pub(crate) fn verif_any() -> Self {
+        Self(Schema::Bool(true))
+    }
+}
+
 impl Ord for SchemaWrapper {
     fn cmp(&self, _other: &Self) -> std::cmp::Ordering {
         std::cmp::Ordering::Equal
